@@ -21,6 +21,7 @@ if echo "$suite" | grep -qE "[0-9]+ failed"; then
   failed=$(PYTHONPATH=$wt /venv/bin/python -m pytest -q -p no:cacheprovider --timeout=900 --continue-on-collection-errors -n 8 2>&1 | grep -E "^FAILED" | sed 's/^FAILED //; s/ - .*//')
   suite="$suite | rerun-failed: $(echo $failed)"
   if [ -n "$failed" ]; then
+     rm -rf $wt/.hypothesis
      rer=$(PYTHONPATH=$wt /venv/bin/python -m pytest -q -p no:cacheprovider --timeout=900 $failed 2>&1 | tail -1)
      suite="$suite => $rer"
   else
